@@ -449,20 +449,24 @@ class Tdf:
         except StopIteration:
             raise ValueError(f"No block of type {type} found")
 
+        endOfFile = self.handler.seek(0, 2)
+
         # delete entry
         self.entries.remove(oldEntry)
-        self.handler.seek(64 + 288 * oldEntryPos, 0)
-        # update all the offsets of the entries preceding the removed one
-        for entry in self.entries[oldEntryPos:]:
-            entry.offset -= oldEntry.size
-            entry._write(self.handler)
+        for n, entry in enumerate(self.entries):
+            # every block stored after the removed one moves up by its size
+            # (table order is not necessarily the order of the blocks in the file)
+            moved = entry.offset > oldEntry.offset
+            if moved:
+                entry.offset -= oldEntry.size
+            # and the entries after the removed one move up one slot in the table
+            if moved or n >= oldEntryPos:
+                self.handler.seek(64 + 288 * n, 0)
+                entry._write(self.handler)
 
-        # the new unused slot points at the end of the data, which is known
-        # only now that the later entries have been shifted
-        if self.entries:
-            newOffset = self.entries[-1].offset + self.entries[-1].size
-        else:
-            newOffset = 64 + 288 * self.nEntries
+        # the new unused slot points at the end of the file, as it will be
+        # once the removed block is gone
+        newOffset = endOfFile - oldEntry.size
 
         # add new unused slot at the end
         date = datetime.now()
@@ -477,6 +481,7 @@ class Tdf:
             comment="Generated by basicTDF",
         )
         self.entries.append(newEntry)
+        self.handler.seek(64 + 288 * (len(self.entries) - 1), 0)
         newEntry._write(self.handler)
 
         self.handler.seek(oldEntry.offset + oldEntry.size, 0)
